@@ -143,3 +143,89 @@ let run_prefetch (parts : string list) : string =
 let () = register "needprefetch" run_needprefetch
 let () = register "prefetchctl" run_prefetchctl
 let () = register "prefetch" run_prefetch
+
+(* kind prefetchfan (e2e, many keys): the model's prediction for the scripted scenario of
+   harness/cmd/implrun/c19_fan.go, same canonical string; spec = the single-flight oracle (largest number of
+   refresh threads holding one key at any event boundary of the run) *)
+let run_prefetchfan (parts : string list) : string =
+  let f = fields parts in
+  let mode = fld f "mode" in
+  let n = ifld f "n" and delay_ms = ifld f "delay" in
+  let sec = 1_000_000_000 and ms = 1_000_000 in
+  let life = 120 and left = 20 in
+  let zt = z_of_int in
+  let a = n_of_int 7 and b = n_of_int 8 in
+  let rec range i k = if k <= 0 then [] else i :: range (i + 1) (k - 1) in
+  let wq = List.map (fun i -> n_of_int (1 + i)) (range 0 n) in
+  let cq = List.map (fun i -> n_of_int (1_000_000 + i)) (range 0 n) in
+  let nn = nat_of_int n in
+  let worst = ref 0 in
+  let run evs = let s = pf_scenario false (zt 0) evs in
+    (let m = int_of_nat s.pfs_max in if m > !worst then worst := m); s in
+  let rec drop k l = if k <= 0 then l else match l with [] -> [] | _ :: t -> drop (k - 1) t in
+  let rec take k l = if k <= 0 then [] else match l with [] -> [] | x :: t -> x :: take (k - 1) t in
+  let is_val v (o : 'a option) = match o with Some e -> int_of_n e.pe_val = v | None -> false in
+  let count p l = List.length (List.filter p l) in
+  (* per-question multiplicities in a list of sent queries *)
+  let log (l : n list) =
+    let tbl = Hashtbl.create 64 in
+    List.iter (fun q -> let k = int_of_n q in
+                Hashtbl.replace tbl k (1 + (try Hashtbl.find tbl k with Not_found -> 0))) l;
+    let keys = Hashtbl.length tbl and mx = Hashtbl.fold (fun _ c m -> max c m) tbl 0 in
+    (keys, mx) in
+  (* served TTL at instant t >= life - 2 *)
+  let renewed t (o : 'a option) = match o with
+    | Some e -> int_of_n e.pe_val = 8 &&
+                (int_of_z e.pe_expire - int_of_z e.pe_stored) / sec - (t - int_of_z e.pe_stored) / sec >= life - 2
+    | None -> false in
+  let wave k (s : psummary) = take n (drop (k * n) s.pfs_answers) in
+  let len = List.length in
+  (* window entries stored at 0 (120 s lifetime); control entries stored at 90 s; the bursts start at 100 s *)
+  let ev0 = List.map (fun q -> PfStore (q, a, zt (life * sec), false)) wq
+            @ [PfTick (zt ((life - left - 10) * sec))]
+            @ List.map (fun q -> PfStore (q, a, zt (life * sec), false)) cq
+            @ [PfTick (zt (10 * sec)); PfFan cq] in
+  let s0 = run ev0 in
+  let out = Printf.sprintf "timing=ok ctl=%d/%d ctl_up=%d" (count (is_val 7) (wave 0 s0)) n (len s0.pfs_sent) in
+  let ev1 = ev0 @ [PfFan wq; PfSendN (nat_of_int 0, nn)] in
+  let s1 = run ev1 in
+  let w1 = wave 1 s1 in
+  let (k1, m1) = log s1.pfs_sent in
+  let out = out ^ Printf.sprintf " ans=%d/%d late=%d lost=0 up_keys=%d up_max=%d infl_mid=%d"
+      (count (is_val 7) w1) n (count (fun o -> o = None) w1) k1 m1 (len s1.pfs_inflight) in
+  let ev2 = ev1 @ [PfTick (zt (200 * ms)); PfFan wq] in
+  let s2 = run ev2 in
+  let w2 = wave 2 s2 in
+  let (_, m2) = log s2.pfs_sent in
+  let out = out ^ Printf.sprintf " ans2=%d/%d late2=%d up_max2=%d infl2=%d"
+      (count (is_val 7) w2) n (count (fun o -> o = None) w2) m2 (len s2.pfs_inflight) in
+  let t2 = (life - left) * sec + 200 * ms in
+  let out = match mode with
+  | "slow" ->
+    let ev3 = ev2 @ [PfTick (zt (delay_ms * ms)); PfUpN (nat_of_int 0, nn, RfOk (b, zt (life * sec), false))] in
+    let s3 = run ev3 in
+    let ev4 = ev3 @ [PfTick (zt (150 * ms)); PfFan wq] in
+    let s4 = run ev4 in
+    let w = wave 3 s4 in
+    let t4 = t2 + delay_ms * ms + 150 * ms in
+    out ^ Printf.sprintf " infl_end=%d after=%d/%d renewed=%d/%d up_end=%d" (len s3.pfs_inflight)
+      (count (is_val 8) w) n (count (renewed t4) w) n (len s4.pfs_sent)
+  | "silent" ->
+    (* every exchange fails at prefetchTimeout (6 s) *)
+    let ev3 = ev2 @ [PfTick (zt (6 * sec)); PfUpN (nat_of_int 0, nn, RfFail)] in
+    let s3 = run ev3 in
+    let ev4 = ev3 @ [PfTick (zt (200 * ms)); PfFan wq; PfSendN (nn, nn);
+                     PfUpN (nn, nn, RfOk (b, zt (life * sec), false))] in
+    let s4 = run ev4 in
+    let (k3, m3) = log (drop n s4.pfs_sent) in
+    let ev5 = ev4 @ [PfTick (zt (100 * ms)); PfFan wq] in
+    let s5 = run ev5 in
+    let w = wave 4 s5 in
+    let t5 = t2 + 6 * sec + 300 * ms in
+    out ^ Printf.sprintf " infl_to=%d old=%d/%d up3_keys=%d up3_max=%d infl_end=%d after=%d/%d renewed=%d/%d up_end=%d"
+      (len s3.pfs_inflight) (count (is_val 7) (wave 3 s4)) n k3 m3 (len s4.pfs_inflight)
+      (count (is_val 8) w) n (count (renewed t5) w) n (len s5.pfs_sent - n)
+  | _ -> failwith "bad mode" in
+  out ^ (if !worst <= 1 then " || spec=ok" else Printf.sprintf " || spec=FAIL:%d-refreshes-hold-one-key" !worst)
+
+let () = register "prefetchfan" run_prefetchfan
